@@ -427,13 +427,53 @@ def _stable(watch, before, unstable, route, v, step):
                 np.copyto(a, b)  # restore, so that later views are judged on the original factors
 
 
+def _extra_same_phase(d2, k):
+    """round 8 (histories, C03_cp_history_views / C03_ch_history_consistent / C03_tk_history_consistent): a SECOND shape-keeping __setitem__
+    phase - weights set again (twice), factors before core, the same core index set twice and then another one.  It draws from its own generator
+    (seeded by the contents stored after the first phase), so the main stream of draws is what it was."""
+    import zlib
+    arrs = d2["fs"] if k in ("cp", "tucker") else d2["cores"]
+    r2 = random.Random(zlib.crc32(repr([np.asarray(a).tolist() for a in arrs]).encode()))
+    if r2.random() < 0.45:
+        return None
+    sets, d3 = [], dict(d2)
+    if k == "cp":
+        R = d2["fs"][0].shape[1]
+        w3 = weights(r2, "signed", R); sets.append(("setw", w3)); d3["w"] = w3
+        if r2.random() < 0.5:
+            fs3 = [rint(r2, f.shape) for f in d2["fs"]]; sets.append(("setf", fs3)); d3["fs"] = fs3
+        if r2.random() < 0.6:
+            w4 = weights(r2, "signed", R); sets.append(("setw", w4)); d3["w"] = w4
+    elif k == "tucker":
+        fs3 = [rint(r2, f.shape) for f in d2["fs"]]; core3 = rint(r2, d2["core"].shape)
+        sets = [("setf", fs3), ("setcore", core3)]; d3.update(core=core3, fs=fs3)
+        if r2.random() < 0.5:
+            fs4 = [rint(r2, f.shape) for f in fs3]; sets.append(("setf", fs4)); d3["fs"] = fs4
+    else:
+        cs3 = list(d2["cores"]); j = r2.randrange(len(cs3))
+        for _ in range(2):
+            cs3[j] = rint(r2, cs3[j].shape); sets.append(("setk", j, cs3[j]))
+        if len(cs3) > 1:
+            j2 = r2.choice([i for i in range(len(cs3)) if i != j])
+            cs3[j2] = rint(r2, cs3[j2].shape); sets.append(("setk", j2, cs3[j2]))
+        d3["cores"] = cs3
+    return sets, d3
+
+
 def setitem_plan(d, rng):
     """phases of __setitem__ calls for a wrapper history: [(label, [setter...], decomposition stored afterwards)]
-    'same': arrays of the shapes they replace (the cache stays valid); 'reshaping': a stored array of another shape."""
+    'same' / 'same2': arrays of the shapes they replace (the cache stays valid); 'reshaping': a stored array of another shape."""
     k = d["kind"]
     if k == "p2" or d.get("cplx") is not None or d.get("half") or (k == "cp" and any(np.ndim(f) != 2 for f in d["fs"])):
         return []
     plan = []
+
+    def second(d2):
+        extra = _extra_same_phase(d2, k)
+        if extra is None:
+            return d2
+        plan.append(("same2", extra[0], extra[1]))
+        return extra[1]
     if k == "cp":
         fs2 = [rint(rng, f.shape) for f in d["fs"]]
         sets, d2 = [("setf", fs2)], dict(d, fs=fs2)
@@ -441,6 +481,7 @@ def setitem_plan(d, rng):
             R = d["fs"][0].shape[1]
             w2 = weights(rng, "signed", R); sets.append(("setw", w2)); d2 = dict(d2, w=w2)
         plan.append(("same", sets, d2))
+        d2 = second(d2); fs2 = d2["fs"]
         if d.get("mask") is None and rng.random() < 0.6:
             j = rng.randrange(len(fs2)); fs3 = list(fs2)
             if len(fs2) >= 2 and fs2[0].shape != fs2[-1].shape and rng.random() < 0.5:
@@ -452,6 +493,7 @@ def setitem_plan(d, rng):
         core2 = rint(rng, d["core"].shape); fs2 = [rint(rng, f.shape) for f in d["fs"]]
         d2 = dict(d, core=core2, fs=fs2)
         plan.append(("same", [("setcore", core2), ("setf", fs2)], d2))
+        d2 = second(d2); fs2 = d2["fs"]
         if rng.random() < 0.6:
             j = rng.randrange(len(fs2)); fs3 = list(fs2); fs3[j] = rint(rng, (fs2[j].shape[0] + 1, fs2[j].shape[1]))
             plan.append(("reshaping", [("setf", fs3)], dict(d2, fs=fs3)))
@@ -461,6 +503,7 @@ def setitem_plan(d, rng):
             cs2[j] = rint(rng, cs2[j].shape); sets.append(("setk", j, cs2[j]))
         d2 = dict(d, cores=cs2)
         plan.append(("same", sets, d2))
+        d2 = second(d2); cs2 = d2["cores"]
         if rng.random() < 0.6:
             j = rng.randrange(len(cs2)); sh = list(cs2[j].shape); sh[1] += 1
             cs3 = list(cs2); cs3[j] = rint(rng, tuple(sh))
@@ -544,10 +587,11 @@ def run_routes(d, rng, malformed=False, backends=("core", "einsum")):
                             steps.append(st)
                         if not ok:
                             break
-                        vs2 = [("validate",), ("tensor",), ("vec",), ("unfolded", 0)] + ([("norm",)] if label == "same" and ("norm",) in base else [])
-                        if label == "same":
-                            vs2 += [rng.choice(base)]
-                        rng.shuffle(vs2)
+                        prng = rng if label != "same2" else random.Random(7919 * len(steps) + len(obs))   # (the second phase never draws from the main stream)
+                        vs2 = [("validate",), ("tensor",), ("vec",), ("unfolded", 0)] + ([("norm",)] if label in ("same", "same2") and ("norm",) in base else [])
+                        if label in ("same", "same2"):
+                            vs2 += [prng.choice(base)]
+                        prng.shuffle(vs2)
                         for step, v in enumerate(vs2):
                             res = C.call_impl(call_view(dcur, x, v, kind, use_method=(step % 2 == 0)), timeout=30)
                             if res == ("crash", "timeout"):
@@ -632,9 +676,11 @@ def gen_valid(tier, rng):
             for wk in ("none", "ones", "signed"):
                 if not T and len(s) >= 3 and rng.random() < 0.5:
                     continue
+                if T and len(s) >= 4 and rng.random() < 0.5:   # round 8 (timing): every order-4 shape, about half of its rank x weights combinations
+                    continue
                 yield dict(kind="cp", w=weights(rng, wk, R), fs=[rint(rng, (n, R)) for n in s], wk=wk, negmodes=(len(s) <= 2 or rng.random() < 0.4))
             # masked route (entrywise 0/1 mask and a general integer mask)
-            if len(s) >= 1 and (T or rng.random() < 0.6):
+            if len(s) >= 1 and ((T and (len(s) < 4 or rng.random() < 0.5)) or (not T and rng.random() < 0.6)):
                 wk = rng.choice(["none", "ones", "signed"])
                 mk = rint(rng, s, 0, 1, nonzero=False) if rng.random() < 0.7 else rint(rng, s, -1, 2, nonzero=False)
                 yield dict(kind="cp", w=weights(rng, wk, R), fs=[rint(rng, (n, R)) for n in s], mask=mk, wk=wk, mask_dtype=rng.choice(["float64", "int64"]))
@@ -655,7 +701,7 @@ def gen_valid(tier, rng):
                     yield dict(kind="cp", w=None, fs=[f1], mask=mk, wk="none", mask_dtype=mdt)
     # ---- Tucker
     for s in pick_shapes(rng, tier, [1, 2, 3, 4], full_to=2, sample=14 if not T else 81):
-        for rep in range(2 if not T else 3):
+        for rep in range(2 if (not T or len(s) >= 4) else 3):   # (round 8, timing: two rank draws per order-4 shape in the thorough tier too)
             rk = tuple(rng.choice([1, 2, 3]) for _ in s)
             core = rint(rng, rk)
             fs = [rint(rng, (n, r)) for n, r in zip(s, rk)]
@@ -673,7 +719,7 @@ def gen_valid(tier, rng):
                 yield dict(kind="tucker", core=core, fs=[f.T.copy() for f in fs], tr=True, skip=(rng.randrange(len(s)) if rng.random() < 0.4 else None))
     # ---- TT / TR
     for s in pick_shapes(rng, tier, [1, 2, 3, 4], full_to=2, sample=14 if not T else 81):
-        for rep in range(2 if not T else 3):
+        for rep in range(2 if (not T or len(s) >= 4) else 3):
             rk = [1] + [rng.choice([1, 2, 3]) for _ in range(len(s) - 1)] + [1]
             yield dict(kind="tt", cores=[rint(rng, (rk[i], n, rk[i + 1])) for i, n in enumerate(s)], negmodes=(rep == 0))
             if len(s) >= 2:
@@ -702,7 +748,7 @@ def gen_valid(tier, rng):
     if T:
         # larger random decompositions (object histories for a third of them: the enumerated boxes above carry the wrapper coverage)
         nw = lambda: rng.random() < 0.67
-        for _ in range(250):
+        for _ in range(200):
             o = rng.randint(2, 5); s = [rng.randint(1, 4) for _ in range(o)]; R = rng.randint(1, 5)
             yield dict(kind="cp", w=weights(rng, rng.choice(["none", "ones", "signed"]), R), fs=[rint(rng, (n, R)) for n in s], no_wrapper=nw())
             rk = [1] + [rng.randint(1, 4) for _ in range(o - 1)] + [1]
@@ -953,6 +999,15 @@ def gen_malformed(tier, rng):
                 yield dict(kind="p2", w=weights(rng, wk, R), wk=wk, fs=[rint(rng, (I, R)), rint(rng, (R, R)), rint(rng, (K, R))], ps=bad,
                            why=f"only the {pos} of {I} projections is not orthonormal ({defect})",
                            views=[("validate",), ("tensor",), ("slices",), ("vec",)] + [("slice", j) for j in range(I)] + [("unfolded", m) for m in range(3)])
+    # --- round 8, on every run (own generator: the main stream of draws is unchanged): degenerate chains whose boundary checks sit on special
+    # indices - a SINGLE core with a wrong first / last / both boundary ranks (TT, TT-matrix), and the shortest rings (two cores, one link open)
+    r3 = random.Random(8)
+    n = r3.randint(1, 3)
+    for a, c in ((2, 1), (1, 2), (2, 2), (3, 1)):
+        yield dict(kind="tt", cores=[rint(r3, (a, n, c))], why=f"single core with boundary ranks ({a}, {c})")
+        yield dict(kind="ttm", cores=[rint(r3, (a, n, r3.randint(1, 2), c))], why=f"single core with boundary ranks ({a}, {c})")
+    for a, b, c, e in ((1, 2, 2, 2), (2, 2, 2, 1), (2, 1, 2, 2)):
+        yield dict(kind="tr", cores=[rint(r3, (a, n, b)), rint(r3, (c, 2, e))], why=f"two-core ring with ranks ({a},{b}) ({c},{e})")
 
 
 def well_formed_py(d):
@@ -1731,8 +1786,8 @@ def run(chk):
     chk.cov["rule"] = ("one case = one decomposition (CP / Tucker / TT / TR / TT-matrix / PARAFAC2; integer entries in [-3,3]) observed through every view "
                        "(validate|.shape/.rank, to_tensor [masked], to_unfolded for every mode + one invalid mode (CP and half of the other decompositions of the enumerated boxes also the negative modes -1, -order and the invalid -(order+1)), to_vec, cp_norm / wrapper .norm(), to_matrix, slice(s)) under both tenalg backends "
                        "(the einsum TT-matrix route against its own model), "
-                       "as tuple (one CViews case) and as wrapper-object HISTORY per backend (CObj cases run through the object model: construction, shuffled multi-step views with repeats, a shape-preserving __setitem__ phase after which the views must follow the new contents, and a shape-changing one = the classified known-finding class); plus mixed-dtype variants (int64 indicator / float32 / float64, half-integer floats, one complex array); CP: all shapes of order 1-3 over {1,2,3} (+ sampled order 4; thorough: all) x rank {1,2,3} x "
-                       "weights {None, ones, signed non-unit} + masked; Tucker/TT/TR: all shapes of order 1-2 + sampled order 3-4 with random ranks in {1,2,3} incl. rank > dim, skip_factor, transpose_factors; "
+                       "as tuple (one CViews case) and as wrapper-object HISTORY per backend (CObj cases run through the object model: construction, shuffled multi-step views with repeats, a shape-preserving __setitem__ phase after which the views must follow the new contents, for about half of the objects a second shape-preserving phase (weights set again / twice, factors before core, the same core index set twice then another), and a shape-changing one = the classified known-finding class); plus mixed-dtype variants (int64 indicator / float32 / float64, half-integer floats, one complex array); CP: all shapes of order 1-3 over {1,2,3} (+ sampled order 4; thorough: all) x rank {1,2,3} x "
+                       "weights {None, ones, signed non-unit} + masked (thorough, order 4: every shape with about half of the rank x weights combinations); Tucker/TT/TR: all shapes of order 1-2 + sampled order 3-4 (thorough: all) with random ranks in {1,2,3} incl. rank > dim, skip_factor, transpose_factors; "
                        "TT-matrix with 1-3 cores; PARAFAC2 with uneven slices; plus a malformed stream (mismatched ranks, wrong boundary ranks, open rings, wrong ndim, non-orthonormal and dyadic sub-orthonormal projections (validator through the model at Q), wrong counts, 1-D factors, a non-square PARAFAC2 B that must be rejected late, "
                        "operands np.einsum can broadcast: size-1 core modes / one-column factors / inner rank r against 1 / open boundary ranks, a TT with first boundary rank r0 and fitting rank products) observed through EVERY view under BOTH backends: Ok-with-the-same-value / Err exactly as the model says, and any reconstruction returned for a set the validator rejects is a finding; "
                        "round 7: order-1 CP tensors with weights=None and a 0/1 (bool / int / float) or general integer mask on every run; tucker_to_tensor(modes=...) with repeated modes; PARAFAC2 with exactly one non-orthonormal projection at the first / middle / last position through every view; 0-order inputs (Python numbers) through the cp / tt functions; complex CP tensors with Gaussian-integer weights and factors (all views exactly, cp_norm exactly as its square); "
